@@ -47,14 +47,16 @@ type mqLog struct {
 }
 
 type mockMQ struct {
-	mu        sync.Mutex
-	subs      map[string]*mockSub
-	reqs      []*mockReq
-	log       []mqLog
-	nextID    int
-	connected bool
-	closedH   func(error)
-	dupSub    string
+	mu           sync.Mutex
+	subs         map[string]*mockSub
+	reqs         []*mockReq
+	log          []mqLog
+	nextID       int
+	connected    bool
+	closedH      func(error)
+	closeGate    chan struct{} // non-nil: Close blocks until it is closed
+	closeEntered chan struct{}
+	dupSub       string
 }
 
 func newMockMQ() *mockMQ { return &mockMQ{subs: map[string]*mockSub{}} }
@@ -71,6 +73,11 @@ func (m *mockMQ) IsClosed() bool {
 	return !m.connected
 }
 func (m *mockMQ) Close() {
+	if g := m.closeGate; g != nil {
+		// the harness holds Stop between its two locked sections
+		m.closeEntered <- struct{}{}
+		<-g
+	}
 	m.mu.Lock()
 	defer m.mu.Unlock()
 	m.connected = false
@@ -115,6 +122,12 @@ func (m *mockMQ) logLen() int {
 	m.mu.Lock()
 	defer m.mu.Unlock()
 	return len(m.log)
+}
+
+func (m *mockMQ) lastID() int {
+	m.mu.Lock()
+	defer m.mu.Unlock()
+	return m.nextID
 }
 
 // outstanding returns the unanswered requests in emission order.
